@@ -653,7 +653,14 @@ func (e *Engine) VerifyFunc(fn *ssa.Function) (vc *VC) {
 			env.vars["result"] = r.results[0]
 		}
 		for _, en := range fc.Ensures {
-			if !e.clauseActive(en) || en.Kind == "panics" {
+			if !e.clauseActive(en) {
+				continue
+			}
+			if en.Kind == "panics" {
+				// normal return: the panic condition did not hold at entry
+				oenv := f.baseEnv(f.entry)
+				st2 := rst.clone()
+				f.obligeClause(st2, "returns-only-if-not", en.Text, not(f.transBool(en.Expr, oenv)), en, r.instr.Pos())
 				continue
 			}
 			g := f.transBool(en.Expr, env)
